@@ -1,4 +1,4 @@
-// CONFIGS: back back11 backmp11
+// CONFIGS: back back11 backmp11 backmp11_ct
 // family `exc` (C12): two orthogonal regions both reacting to `e`; a guard / exit / action / entry of region 0 or 1 throws;
 // default and before_transition switch policies; continuation events afterwards.  Oracle typed from the statement of C12.
 #include "common.hpp"
@@ -6,6 +6,10 @@
 struct e {}; struct f {};
 static std::string g_log; static int g_throw_phase = -1, g_throw_region = -1; static int g_caught = 0, g_nt = 0; static bool g_caught_right_event = false;
 enum { PH_GUARD, PH_EXIT, PH_ACTION, PH_ENTRY };
+#include <any>
+// the event handed to exception_caught is `e` itself, or - under favor_compile_time - the any_event that carries it
+template<class Ev> bool is_event_e(Ev const&) { return std::is_same<Ev, struct e>::value; }
+inline bool is_event_e(std::any const& a) { return a.type() == typeid(struct e); }
 static void maybe_throw(int phase, int region) { if (phase == g_throw_phase && region == g_throw_region) { g_log += "THROW "; throw std::runtime_error("boom"); } }
 template<int R> struct Src : state<> { template<class E,class F> void on_exit(E const&,F&){ g_log += "x" + std::to_string(R) + " "; maybe_throw(PH_EXIT, R); } };
 template<int R> struct Tgt : state<> { template<class E,class F> void on_entry(E const&,F&){ g_log += "n" + std::to_string(R) + " "; maybe_throw(PH_ENTRY, R); } };
@@ -19,7 +23,7 @@ template<class Policy> struct M_ : state_machine_def<M_<Policy>> {
     Row<S0, e, T0, A<0>, G<0>>, Row<S1, e, T1, A<1>, G<1>>,
     Row<T0, f, S0, none, none>, Row<T1, f, S1, none, none> > {};
   template<class F,class Ev> void no_transition(Ev const&,F&,int){ ++g_nt; }
-  template<class F,class Ev> void exception_caught(Ev const&,F&,std::exception&){ ++g_caught; g_caught_right_event = std::is_same<Ev,e>::value; g_log += "CAUGHT "; }
+  template<class F,class Ev> void exception_caught(Ev const& ev,F&,std::exception&){ ++g_caught; g_caught_right_event = is_event_e(ev); g_log += "CAUGHT "; }
 };
 template<class P> void run(const char* pn, bool before) {
   typedef BE<M_<P>> M;
